@@ -212,7 +212,7 @@ class IndexRun:
             parent = e['parent'] if kind == 'fork' else self.best
             if kind == 'mine' and 'parent' in e and e['parent'] != self.best:
                 parent = e['parent']
-            self.tree.add(self.nb, parent, e['txs'])
+            self.tree.add(self.nb, parent, e['txs'], e.get('cb'))
             old_h = self.tree.blocks[self.best].height
             self.prev_best = self.best
             self.best = self.nb
@@ -244,9 +244,9 @@ class IndexRun:
         pts = [(CB, i) for i in range(len(FUNDING))]
         for s, d in SLOTS.items():
             pts += [(s, i) for i in range(len(d['outs']))]
-        for bid in self.tree.blocks:
+        for bid, b in self.tree.blocks.items():
             if bid:
-                pts.append((CB + bid, 0))
+                pts += [(CB + bid, i) for i in range(len(b.cb))]
         return pts
 
     async def observe(self, ev, extra=None):
@@ -396,7 +396,7 @@ class IndexRun:
             ops = list(CTL.log)
             fired = CTL.fired
             self.cleanup()
-        return {'tree': [[b.parent.bid if b.parent else -1, b.height, b.slots] for _bid, b in sorted(self.tree.blocks.items())],
+        return {'tree': [[b.parent.bid if b.parent else -1, b.height, b.slots, b.cb] for _bid, b in sorted(self.tree.blocks.items())],
                 'activation': self.activation, 'limit': self.reorg_limit, 'steps': self.steps,
                 'ops': len(ops), 'oplog': [(k, d) for _n, k, d in ops], 'fired': fired, 'died': self.died,
                 'flush_job_ops': list(getattr(self, 'flush_job_ops', []))}
